@@ -495,7 +495,8 @@ defvjp(anp.broadcast_to, grad_broadcast_to)
 
 def grad_np_sum(ans, x, axis=None, keepdims=False, dtype=None):
     shape, dtype = anp.shape(x), anp.result_type(x)
-    return lambda g: repeat_to_match_shape(g, shape, dtype, axis, keepdims)[0]
+    # (dtype=complex may have been requested for real x: the cotangent goes back to the kind of x)
+    return lambda g: match_complex(x, repeat_to_match_shape(g, shape, dtype, axis, keepdims)[0])
 
 
 defvjp(anp.sum, grad_np_sum)
